@@ -1,5 +1,6 @@
 # Copyright 2024, Battelle Energy Alliance, LLC All Rights Reserved.
 from abc import ABC, abstractmethod
+import copy
 import itertools as it
 from montepy.errors import *
 from montepy.constants import (
@@ -18,6 +19,7 @@ import montepy
 import numpy as np
 import textwrap
 import warnings
+from montepy.utilities import is_comment
 
 
 class MCNP_Object(ABC):
@@ -214,7 +216,11 @@ class MCNP_Object(ABC):
         for line in strings:
             if line.strip():
                 # a wrapped line of only blanks would end the block for MCNP
-                buffer = [part for part in wrapper.wrap(line) if part.strip()]
+                buffer = [
+                    part
+                    for part in MCNP_Object._wrap_line(wrapper, line)
+                    if part.strip()
+                ]
                 if len(buffer) > 1:
                     warning = LineExpansionWarning(
                         f"The line exceeded the maximum length allowed by MCNP, and was split. The line was:\n{line}"
@@ -229,6 +235,44 @@ class MCNP_Object(ABC):
                     )
                 ret += buffer
         return ret
+
+    @staticmethod
+    def _wrap_line(wrapper, line):
+        """
+        Wraps one line so that the text of a comment is continued as a comment, and never as data.
+
+        :param wrapper: the wrapper configured for data lines.
+        :type wrapper: textwrap.TextWrapper
+        :param line: the line to wrap
+        :type line: str
+        :returns: the wrapped lines
+        :rtype: list
+        """
+        if len(wrapper.initial_indent) + len(line) <= wrapper.width:
+            return wrapper.wrap(line)
+        comment_wrapper = copy.copy(wrapper)
+        if is_comment(line):
+            comment_wrapper.subsequent_indent = "c "
+            return comment_wrapper.wrap(line)
+        if "$" not in line:
+            return wrapper.wrap(line)
+        data, comment = line.split("$", 1)
+        comment = "$" + comment
+        if data.strip():
+            ret = wrapper.wrap(data)
+            if len(ret[-1]) + len(comment) <= wrapper.width:
+                ret[-1] += comment
+                return ret
+            if len(ret[-1]) < wrapper.width // 2:
+                # start the comment on the line of the data it follows
+                comment_wrapper.initial_indent = ret.pop()
+            else:
+                comment_wrapper.initial_indent = wrapper.subsequent_indent
+        else:
+            ret = []
+            comment_wrapper.initial_indent = wrapper.initial_indent + data
+        comment_wrapper.subsequent_indent = wrapper.subsequent_indent + "$ "
+        return ret + comment_wrapper.wrap(comment)
 
     def validate(self):
         """
